@@ -88,7 +88,17 @@ def run(ctx):
             again = ctx.drv("certcomp", {"scenarios": [s]}, name="certcomp_again_%d" % sc)
             r2 = [e for e in again if e["ev"] == "Result"][0]
             if "i/o timeout" not in r2["cerr"]:
-                raise vlib.Machinery("scenario %d timed out once but not when run alone (load): %r" % (sc, s))
+                # the deadline was an artefact of machine load: the run made alone is the observation that counts, and it
+                # is judged by the same trace specification
+                ctx.write_ndjson("certcomp_trace.ndjson", again)
+                rr = ctx.tlc("CertCompTrace", timeout=300, count=False)
+                if rr.tagged("DONE") != [len(again)]:
+                    raise vlib.Machinery("re-run of scenario %d not consumed by the trace specification" % sc)
+                ctx.note("scenario %d hit the transport deadline under load; re-run alone and judged again" % sc)
+                if not rr.tagged("REJ"):
+                    continue
+                results[sc] = r2
+                obs = rr.tagged("REJ")[0][1]
         kind = ("flushed-valid-stream-refused" if obs != "accept" and not s["corrupt"] and s["decl_delta"] == 0 and not s["decl_huge"] and s["alg"] in s["advertised"]
                 else "longer-than-declared-wrong-alert" if s["decl_delta"] < 0 and obs == "abort" else "other")
         ctx.finding("certcomp:%s:%s:%s" % (kind, ALGN.get(s["alg"], s["alg"]), obs),
